@@ -48,8 +48,8 @@ let check_equal (clause : string) (site : string) (runs : string list list) : un
         if r <> r0 then
           oracle_fail clause site (sprintf "run %d (different unrelated history) differs from run 0 at %s" (k + 1) (first_diff r0 r)))
       others;
-    if List.exists (fun r -> List.exists (fun t -> String.length t >= 6 && String.sub t 0 6 = "THROW_") r) runs then
-      oracle_fail "no_throw" site "exception inside a run"
+    (* an exception thrown identically in every run is deterministic behaviour; reported by the tag only *)
+    ()
 
 (* skip an MDP / POMDP in the case cursor, returning its sizes *)
 let skip_mdp cc = let s = next_int cc in let a = next_int cc in ignore (next cc);
@@ -201,6 +201,7 @@ let judge_generic clause site nt tag ic =
   (match runs with
    | [["CHILD_TIMEOUT"]] -> (false, tag ^ "_not_converging")        (* termination of the solver is not this property *)
    | [[t]] when String.length t > 13 && String.sub t 0 13 = "CHILD_SIGNAL_" -> oracle_fail "no_crash" site t
+   | [t] :: _ when String.length t >= 6 && String.sub t 0 6 = "THROW_" -> check_equal clause site runs; (false, tag ^ "_throws")
    | _ -> check_equal clause site runs; (nt, tag))
 
 let judge (_id : int) (cc : cursor) (ic : cursor) : bool * string =
@@ -253,6 +254,15 @@ let judge (_id : int) (cc : cursor) (ic : cursor) : bool * string =
        expect ic "X";
        let moved = next ic in let init = next ic in
        (d1 <> d2 && moved <> init, if moved <> init then "gapmin_tolerance_moved" else "gapmin"))
+  | "heap" ->
+    let alg = next cc in ignore (next cc); ignore (next cc);
+    let d1 = skip_pomdp cc in let d2 = skip_pomdp cc in
+    let site = (match alg with
+        | "ls" -> "POMDP::LinearSupport::operator()" | "ip" -> "POMDP::IncrementalPruning::operator()"
+        | "wit" -> "POMDP::Witness::operator()" | "pbvi" -> "POMDP::PBVI::operator()" | "perseus" -> "POMDP::PERSEUS::operator()"
+        | "qmdp" -> "POMDP::QMDP::operator()" | "fib" -> "POMDP::FastInformedBound::operator()"
+        | "blind" -> "POMDP::BlindStrategies::operator()" | _ -> failwith "alg") in
+    judge_generic "heap_history_independent" site (d1 <> d2) ("heap_" ^ alg) ic
   | "pbreuse" ->
     let alg = next cc in ignore (next cc);
     let d1 = skip_pomdp cc in let d2 = skip_pomdp cc in
